@@ -65,6 +65,7 @@ type FuncContract struct {
 	SrcHash   string
 	Lits      map[string]*FuncContract // contracts of function literals "lit N"
 	Notes     []string
+	Unreachable []string // substrings of panic messages assumed unreachable (listed as assumptions)
 }
 
 type SpecDecl struct {
@@ -91,7 +92,7 @@ type Program struct {
 }
 
 var funcKeywords = map[string]bool{"property": true, "requires": true, "ensures": true, "modifies": true, "loop": true,
-	"invariant": true, "decreases": true, "fnparam": true, "index": true, "visited": true, "opt": true, "lit": true, "note": true, "end": true}
+	"invariant": true, "decreases": true, "fnparam": true, "index": true, "visited": true, "opt": true, "lit": true, "note": true, "end": true, "assume-unreachable": true}
 var topKeywords = map[string]bool{"func": true, "assumed": true, "sumfold": true, "define": true, "declare": true, "axiom": true, "ghost": true, "function": true}
 
 func LoadProgram(repo string, patterns []string) (*Program, error) {
@@ -317,6 +318,14 @@ func (p *Program) parseLines(pk *packages.Package, file string, raw []rawLine) {
 				cur.Opts[k] = v
 			case "note":
 				cur.Notes = append(cur.Notes, rest)
+			case "assume-unreachable":
+				// assume-unreachable "substring of the panic message" reason...
+				if i := strings.Index(rest, "\""); i >= 0 {
+					if j := strings.Index(rest[i+1:], "\""); j >= 0 {
+						cur.Unreachable = append(cur.Unreachable, rest[i+1:i+1+j])
+						cur.Notes = append(cur.Notes, "ASSUMED unreachable panic "+rest)
+					}
+				}
 			case "modifies":
 				names := strings.FieldsFunc(rest, func(r rune) bool { return r == ',' || r == ' ' })
 				if curFn != nil {
